@@ -1,5 +1,6 @@
 import N0Verif.Proofs.CsvFile
 import N0Verif.Proofs.CsvEnc
+import N0Verif.Proofs.CsvReader
 /-!
 # C14 — loading a CSV file reproduces the saved table under every header mode
 
@@ -16,7 +17,7 @@ record is the insertion-ordered list of `(key, cell or None)`; `zipPad names row
 (characterised by `C14_padding`, `C14_surplus_dropped`), `cellAt hdr row c` the cell of column `c`.
 -/
 namespace N0.C14
-open N0 N0.Py N0.Csv N0.CsvFile N0.C13
+open N0 N0.Py N0.Csv N0.CsvFile N0.C13 N0.CsvReader
 
 /-- delimiters of the property: a single character, not the quote, CR, LF or U+FEFF -/
 def GoodDelim14 (d : Char) : Prop := GoodDelim d ∧ d ≠ bomChar
@@ -355,5 +356,142 @@ example : AsciiTransparent enc1 := by
     · simp at hb; subst hb; decide
 
 end NonVacuity
+
+/-! ## "… and all agree with the standard csv reader"
+
+`readerRecords d lines` is `list(csv.reader(lines, delimiter=d, strict=True))` (model of CPython's
+`_csv.c` state machine, `Model/CsvReader.lean`), `RErr.csv` is `csv.Error`. -/
+
+/-- **C14 (the line parsers agree, library generator).**  On every line the library generator
+produces from a row of fields without line breaks (any CR/LF line ending, also none), `csv.reader`
+and `parse_complex_csv_line` both return exactly the row.  The row `['']` is excluded: the library
+writes it as a blank line (`C14_reader_blank_line`). -/
+theorem C14_agrees_with_csv_reader (d : Char) (hd : GoodDelim d) (row : List Str) (hrow : row ≠ [])
+    (hlone : row ≠ [[]]) (hf : ∀ g ∈ row, NoBreak g) (eol : Str) (he : IsEol eol) :
+    readerRecords d [gen d row eol] = .ok [row] ∧ parse d (gen d row eol) = .ok row := by
+  refine ⟨?_, C13_roundtrip d hd row hrow hf eol he⟩
+  cases row with
+  | nil => exact absurd rfl hrow
+  | cons f fs =>
+    unfold gen
+    simp only
+    rw [gen_acc_dropLast]
+    unfold readerRecords
+    rw [csvr_reader_rowStr d hd _ (needsQuote_adequate d) f fs hf (by
+      intro h1 h2; subst h1; subst h2; exact absurd rfl hlone) eol he]
+
+/-- **C14 (the line parsers agree, csv.writer).**  The same for every line `csv.writer`
+(`QUOTE_MINIMAL`) writes — `save_csv` writes its files with it — for every non-empty row. -/
+theorem C14_agrees_with_csv_reader_writer (d : Char) (hd : GoodDelim d) (row : List Str)
+    (hrow : row ≠ []) (hf : ∀ g ∈ row, NoBreak g) (term : Str) (he : IsEol term) :
+    readerRecords d [writerLine d term row] = .ok [row] ∧ parse d (writerLine d term row) = .ok row := by
+  refine ⟨?_, C13_roundtrip_writer d hd row hrow hf term he⟩
+  cases row with
+  | nil => exact absurd rfl hrow
+  | cons f fs =>
+    unfold writerLine
+    simp only
+    rw [join_eq_rowStr]
+    unfold readerRecords
+    rw [csvr_reader_rowStr d hd _ (writer_adequate d term _) f fs hf (by
+      intro h1 h2; subst h1; subst h2; simp [writerNeedsQuote]) term he]
+
+/-- the quoted field at the end of `body` is not closed (the library parser's state after `body`) -/
+def OpenQuote (d : Char) (body : Str) : Prop :=
+  ∃ st, run d St.init body = .ok st ∧ st.qb = true ∧ st.ex = false
+
+/-- **C14 (where the two line parsers agree, exactly).**  On an arbitrary physical line
+`body ++ eol` (`body` not empty, no line break inside): the library parser refuses it
+(`ValueError`) only if `csv.reader` does (`csv.Error`); if the library parser accepts it and the
+last quoted field is closed, `csv.reader` returns the same fields; if the last quoted field is
+still open, the library parser accepts the line and `csv.reader` refuses it (strict mode,
+"unexpected end of data"). -/
+theorem C14_reader_vs_parse (d : Char) (hd : GoodDelim d) (body : Str) (hb : NoBreak body)
+    (hne : body ≠ []) (eol : Str) (he : IsEol eol) :
+    (∀ e, parse d (body ++ eol) = .error e → readerRecords d [body ++ eol] = .error .csv)
+    ∧ (∀ fs, parse d (body ++ eol) = .ok fs → ¬ OpenQuote d body →
+        readerRecords d [body ++ eol] = .ok [fs])
+    ∧ (OpenQuote d body → readerRecords d [body ++ eol] = .error .csv
+        ∧ ∃ fs, parse d (body ++ eol) = .ok fs) := by
+  have hp : parse d (body ++ eol) = (run d St.init body >>= fun st => pure (st.out ++ [st.field])) := by
+    unfold parse
+    rw [rstrip_crlf_append body eol hb he]
+  have hr := csvr_reader_line d hd body hb hne eol he
+  unfold readerRecords
+  rw [hr, hp]
+  cases hrun : run d St.init body with
+  | error e =>
+    refine ⟨fun _ _ => rfl, ?_, ?_⟩
+    · intro fs h; simp [bind, Except.bind] at h
+    · rintro ⟨st, h, _⟩; rw [hrun] at h; cases h
+  | ok st =>
+    simp only [bind, Except.bind, pure, Except.pure]
+    refine ⟨fun e h => (by cases h), ?_, ?_⟩
+    · intro fs h hopen
+      cases h
+      have : (st.qb && !st.ex) = false := by
+        cases hq : st.qb <;> cases hx : st.ex <;> simp
+        exact hopen ⟨st, hrun, hq, hx⟩
+      simp [this]
+    · rintro ⟨st', h, hq, hx⟩
+      rw [hrun] at h
+      cases h
+      simp [hq, hx]
+
+/-- **C14 (blank line).**  The one other difference: on a blank line `csv.reader` yields the
+empty record `[]`, the library parser the single empty field `['']` (so `load_csv` with
+`skip_empty_lines=False` makes a record of it, `C14_keep_empty_lines`). -/
+theorem C14_reader_blank_line (d : Char) (eol : Str) (he : IsEol eol) :
+    readerRecords d [eol] = .ok [[]] ∧ parse d eol = .ok [[]] := by
+  constructor
+  · unfold readerRecords
+    rw [csvr_readerAux_cons d eol [] RSt.init (csvr_reader_blank d eol he) rfl]
+    rfl
+  · unfold parse
+    have := rstrip_crlf_append [] eol ⟨by simp, by simp⟩ he
+    rw [List.nil_append] at this
+    rw [this]
+    rfl
+
+/-- counter-example to unrestricted agreement: an unterminated quoted field -/
+theorem C14_reader_open_quote_cex :
+    parse ',' ['"', 'a', ',', 'b'] = .ok [['a', ',', 'b']]
+      ∧ readerRecords ',' [['"', 'a', ',', 'b']] = .error .csv := by decide
+
+/-- counter-example: the library generator writes the row `['']` as a blank line, which
+`csv.reader` reads as `[]` -/
+theorem C14_reader_lone_empty_cex :
+    parse ',' (gen ',' [[]] ['\n']) = .ok [[]] ∧ readerRecords ',' [gen ',' [[]] ['\n']] = .ok [[]] := by
+  decide
+
+/-- **C14 (csv.reader reads the saved file back as the table).**  Over the lines of the file
+`save_csv` wrote (text mode, `newline=''`, `utf-8-sig`), `csv.reader` yields the rows of the table,
+header first — an empty row as the empty record; with `C14_positional` / `C14_header_from_file`
+this is "`load_csv` agrees with the standard csv reader" on whole files. -/
+theorem C14_reader_reads_saved_file (d : Char) (hd : GoodDelim14 d) (eol : Str) (he : Eol eol)
+    (bom : Bool) (header : Option (List Str)) (rows : List (List Str))
+    (hc : CellsOK (allRows header rows)) :
+    readerRecords d (nlLines (decodeSig (fileOf bom d eol header rows)))
+      = .ok (allRows header rows) := by
+  rw [fileOf_eq, csvr_nlLines_file d hd.1 hd.2 eol he bom _ hc.1 hc.2]
+  unfold readerRecords
+  rw [csvr_readerAux_written d hd.1 eol he.isEol _ hc.1]
+
+section NonVacuityReader
+example : readerRecords ',' [gen ',' [['a', ',', '"'], ['"'], [], ['"', 'x', '"']] ['\r', '\n']]
+    = .ok [[['a', ',', '"'], ['"'], [], ['"', 'x', '"']]] := by decide
+example : readerRecords ';' [writerLine ';' ['\n'] [[]]] = .ok [[[]]] := by decide
+-- all three clauses of `C14_reader_vs_parse` are inhabited
+example : parse ',' ['"', 'a', '"', 'b'] = .error .ValueError
+    ∧ readerRecords ',' [['"', 'a', '"', 'b']] = .error .csv := by decide
+example : ¬ OpenQuote ',' ['a', '"', 'b'] := by
+  rintro ⟨st, h, hq, _⟩
+  have : run ',' St.init ['a', '"', 'b'] = .ok ⟨['a', '"', 'b'], [], false, false⟩ := by decide
+  rw [this] at h; cases h; cases hq
+example : OpenQuote ',' ['"', 'a'] := ⟨⟨['a'], [], true, false⟩, by decide, rfl, rfl⟩
+-- a record over two physical lines (outside the theorems, inside the model)
+example : readerRecords ',' [['"', 'a', '\n'], ['b', '"', ',', 'c', '\n']]
+    = .ok [[['a', '\n', 'b'], ['c']]] := by decide
+end NonVacuityReader
 
 end N0.C14
